@@ -617,6 +617,39 @@ Definition check_instance (i : instance) : bool := forallb (check_from i) (start
 
 Definition all_instances_ok (l : list instance) : bool := forallb check_instance l.
 
+(* well-formedness of a residue for each protocol (hypothesis of the parametric theorems)
+   and the expected final name list:
+   Flip      - names distinct, moveable names distinct and among them, no name is a
+               placeholder (ends in FLIP, starts with LP, or is "FLIP"), so no xFLIP copy
+               clashes with an existing atom;
+   Alcoholic - names distinct, no name is a placeholder (in particular none starts with LP,
+               so LP1/LP2 are free and complete deletes nothing else), h is not one either;
+   Water     - the same, and H2 is not present without H1. *)
+Definition wf_flip (base mv : nl) : bool :=
+  nodupb base && nodupb mv && forallb (fun m => mem m base) mv &&
+  forallb (fun x => negb (placeholder x)) base.
+
+Definition wf_alc (h : string) (base : nl) : bool :=
+  nodupb base && forallb (fun x => negb (placeholder x)) base && negb (placeholder h).
+
+Definition alc_expected (h : string) (base : nl) : nl := (remove_first h base ++ [h])%list.
+
+Definition wf_wat (base : nl) : bool :=
+  nodupb base && forallb (fun x => negb (placeholder x)) base && (negb (mem "H2" base) || mem "H1" base).
+
+Definition wat_expected (base : nl) : nl :=
+  (base ++ (if mem "H1" base then [] else ["H1"]) ++ (if mem "H2" base then [] else ["H2"]))%list.
+
+(* a table instance meets the hypothesis of its parametric theorem and lists exactly the
+   parametric expectation (Carboxylic: certificate only) *)
+Definition inst_wf (i : instance) : bool :=
+  match i_kind i with
+  | KFlip mv => wf_flip (i_base i) mv && nl_eqb (i_expected i) (i_base i)
+  | KAlc h => wf_alc h (i_base i) && nl_eqb (i_expected i) (alc_expected h (i_base i))
+  | KWat => wf_wat (i_base i) && nl_eqb (i_expected i) (wat_expected (i_base i))
+  | KCarb _ => true
+  end.
+
 (* ---- patch tables (Generated/C03Table.v) ---------------------------------- *)
 
 (* Definition.patches: key, patch name, atoms added, atoms removed, applied at run time *)
@@ -805,3 +838,136 @@ Definition instance_paths (i : instance) : list string :=
   | KWat => map (fun o => show_paths _ show_wlabel (paths_from _ wat_step wlabels o)) (starts i)
   | KCarb c => map (fun o => show_paths _ show_clabel (paths_from _ (carb_step c) (clabels_of c) o)) (starts i)
   end.
+
+(* ---- Biomolecule.repair_heavy and add_hydrogens at name level ---------------
+   One residue: [ns] = its ordered atom names, [ref] = residue.reference.map keys in order
+   (with the pseudo atoms N+1 / C-1 of the PEPTIDE patch).  Whether three of
+   get_nearest_bonds(atom) are present is [feas atom current_names]; whether a hydrogen can
+   be placed (rebuild_tetrahedral or three neighbours) is [hfeas]. *)
+
+Definition is_pseudo (s : string) : bool := String.eqb s "N+1" || String.eqb s "C-1".
+
+(* the OP1/O1P, OP2/O2P aliasing of num_missing_heavy and of the extra-atom loop *)
+Definition phos_alias (r : string) (ns : nl) : bool :=
+  (String.eqb r "O1P" && mem "OP1" ns) || (String.eqb r "O2P" && mem "OP2" ns).
+Definition keep_alias (a : string) (cur : nl) : bool :=
+  ((String.eqb a "O1P" || String.eqb a "OP1") && mem "OP1" cur) ||
+  ((String.eqb a "O2P" || String.eqb a "OP2") && mem "OP2" cur).
+
+Inductive rres := RDone (w : W) (logged : nl) | RValueError (missing : nl) | ROutOfFuel | RAnomaly.
+
+Section Repair.
+  Variable ref : nl.
+  Variable feas : string -> nl -> bool.
+
+  (* residue.missing as set by num_missing_heavy *)
+  Definition missing_heavy (ns : nl) : nl :=
+    filter (fun r => negb (is_hyd r) && negb (is_pseudo r) && negb (phos_alias r ns) && negb (mem r ns)) ref.
+
+  (* the extra-atom loop over list(residue.atoms); second component: names logged
+     "Extra atom ... Deleted this atom." *)
+  Fixpoint drop_extras (todo : nl) (w : W) (logged : nl) : option (W * nl) :=
+    match todo with
+    | [] => Some (w, logged)
+    | a :: r =>
+        if keep_alias a (w_names w) then drop_extras r w logged
+        else if negb (mem a ref) then
+          match rm a w with
+          | Some w' => drop_extras r w' (logged ++ [a])%list
+          | None => None
+          end
+        else drop_extras r w logged
+    end.
+
+  Fixpoint seen_get (m : list (string * nat)) (k : string) : nat :=
+    match m with [] => 0 | (k', v) :: r => if String.eqb k k' then v else seen_get r k end.
+  Fixpoint seen_set (m : list (string * nat)) (k : string) (v : nat) : list (string * nat) :=
+    match m with
+    | [] => [(k, v)]
+    | (k', v') :: r => if String.eqb k k' then (k, v) :: r else (k', v') :: seen_set r k v
+    end.
+
+  (* the while loop: pop(0); rebuilt when three neighbours exist, else counted in seenmap,
+     re-queued, and ValueError once its count exceeds nummissing *)
+  Fixpoint rebuild (fuel nummissing : nat) (missing : nl) (seen : list (string * nat)) (w : W) (logged : nl) : rres :=
+    match fuel with
+    | 0 => ROutOfFuel
+    | S f =>
+        match missing with
+        | [] => RDone w logged
+        | a :: rest =>
+            if feas a (w_names w) then
+              match cr a w with
+              | Some w' => rebuild f nummissing rest seen w' logged
+              | None => RAnomaly
+              end
+            else
+              let c := S (seen_get seen a) in
+              let missing' := (rest ++ [a])%list in
+              if Nat.ltb nummissing c then RValueError missing'
+              else rebuild f nummissing missing' (seen_set seen a c) w logged
+        end
+    end.
+
+  Definition repair_fuel (n : nat) : nat := n * n + n + 1.
+
+  (* repair_heavy for one residue; any_missing = (total_missing > 0) for the whole molecule *)
+  Definition repair_heavy (any_missing : bool) (ns : nl) : rres :=
+    if negb any_missing then RDone (mkW ns []) []
+    else match drop_extras ns (mkW ns []) [] with
+         | None => RAnomaly
+         | Some (w, logged) =>
+             let miss := missing_heavy ns in
+             rebuild (repair_fuel (List.length miss)) (List.length miss) miss [] w logged
+         end.
+
+  (* add_hydrogens for one residue: template hydrogens not present are built, in
+     reference order; ssb = CYS with ss_bonded (HG is skipped) *)
+  Variable hfeas : string -> nl -> bool.
+  Definition add_hydrogens (ssb : bool) (w : W) : option W :=
+    fold_left (fun acc r => acc >>= fun w' =>
+        if is_hyd r && negb (has r w') && negb (ssb && String.eqb r "HG")
+        then (if hfeas r (w_names w') then cr r w' else Some w')
+        else Some w') ref (Some w).
+End Repair.
+
+(* executable feasibility: three of get_nearest_bonds(atom) present; pn / pc = the
+   neighbouring residue's N / C is linked (residue.peptide_n / peptide_c) *)
+Definition feas_tab (nearest : list (string * nl)) (pn pc : bool) (a : string) (cur : nl) : bool :=
+  let nb := match find (fun p => String.eqb (fst p) a) nearest with Some p => snd p | None => [] end in
+  Nat.leb 3 (List.length (filter (fun b => if String.eqb b "N+1" then pn else if String.eqb b "C-1" then pc else mem b cur) nb)).
+
+Definition show_rres (r : rres) : string :=
+  match r with
+  | RDone w logged => "DONE " ++ show_names (w_names w) ++ " | logged " ++ show_names logged
+  | RValueError m => "ValueError " ++ show_names m
+  | ROutOfFuel => "OUT-OF-FUEL"
+  | RAnomaly => "ANOMALY"
+  end.
+
+(* template table entry: name, reference names in order, nearest-bond lists *)
+Record rtemplate := mkRT { rt_name : string; rt_ref : nl; rt_nearest : list (string * nl) }.
+
+Definition heavy_of (ref : nl) : nl := filter (fun r => negb (is_hyd r) && negb (is_pseudo r)) ref.
+Definition backbone4 : nl := ["N"; "CA"; "C"; "O"].
+
+(* with the whole side chain missing (only N, CA, C, O given, no neighbour residues, no
+   hydrogens) the loop rebuilds every heavy atom of the template: it cannot get stuck *)
+Definition rebuild_from_backbone_ok (t : rtemplate) : bool :=
+  let ns := filter (fun x => mem x (rt_ref t)) backbone4 in
+  match repair_heavy (rt_ref t) (feas_tab (rt_nearest t) false false) true ns with
+  | RDone w _ => forallb (fun x => mem x (w_names w)) (heavy_of (rt_ref t)) && nodupb (w_names w)
+  | _ => false
+  end.
+
+(* ... and likewise when any single side-chain heavy atom is missing *)
+Definition rebuild_single_ok (t : rtemplate) : bool :=
+  forallb (fun a =>
+      if mem a backbone4 then true
+      else match repair_heavy (rt_ref t) (feas_tab (rt_nearest t) false false) true (remove_first a (heavy_of (rt_ref t))) with
+           | RDone w _ => mem a (w_names w) && nodupb (w_names w)
+           | _ => false
+           end) (heavy_of (rt_ref t)).
+
+Definition rtemplates_ok (l : list rtemplate) : bool :=
+  forallb (fun t => rebuild_from_backbone_ok t && rebuild_single_ok t) l.
